@@ -38,6 +38,19 @@ Definition chk_lines (c : lines_case) : bool :=
   let '(t, lines, groups) := c in
   texts_eqb (readlines t) lines && texts_eqb (retrieve_model lines) groups && texts_eqb (findall t) groups.
 
+(* JSON layer: (add_time, clock tokens, kwargs as JSON values, counter, real payload, real sys.getsizeof) *)
+Definition json_case := (bool * (list Z * list Z * option (list Z)) * list (list Z * jvalue) * nat * list Z * Z)%type.
+Definition chk_json (c : json_case) : bool :=
+  let '(add_time, (ts, tm, cost), kw, k, payload, sz) := c in
+  let v := report_dict add_time {| ck_timestamp := ts; ck_time := tm; ck_cost := cost |} kw k in
+  jwf v && list_eqb Z.eqb (dumps v) payload && Z.eqb (ascii_str_sizeof payload) sz &&
+  match loads payload with Some v' => jvalue_eqb v' v | None => false end &&
+  (* what the abstract Reporter is told is what the concrete one computes *)
+  match rq_dump (to_request add_time {| ck_timestamp := ts; ck_time := tm; ck_cost := cost |} kw) k with
+  | Some (p, s) => list_eqb Z.eqb p payload && Z.eqb s sz
+  | None => false
+  end.
+
 (* (message unserialisable, message too large, events, observed outcomes, captured stdout) *)
 Definition sender_case := (list Z * list Z * list event * list outcome * list Z)%type.
 Definition chk_sender (c : sender_case) : bool :=
@@ -205,6 +218,26 @@ def has_bad(spec):
     return None
 
 
+def jterm(x):
+    """plain Python value (what has to arrive) -> Coq term of type jvalue; numbers as the tokens Python prints"""
+    if x is None:
+        return "JNull"
+    if isinstance(x, bool):
+        return "(JBool %s)" % blit(x)
+    if isinstance(x, int):
+        return "(JNum %s)" % tx(str(x))
+    if isinstance(x, float):
+        tok = "NaN" if math.isnan(x) else ("Infinity" if x == math.inf else ("-Infinity" if x == -math.inf else float.__repr__(x)))
+        return "(JNum %s)" % tx(tok)
+    if isinstance(x, str):
+        return "(JStr %s)" % tx(x)
+    if isinstance(x, list):
+        return "(JList %s)" % (lst([jterm(v) for v in x]) if x else "(@nil jvalue)")
+    if isinstance(x, dict):
+        return "(JDict %s)" % (lst(["(%s, %s)" % (tx(k), jterm(v)) for k, v in x.items()]) if x else "(@nil (list Z * jvalue))")
+    raise ValueError(x)
+
+
 def same(a, b):
     """deep equality, type-strict (bool/int/float/str kept apart), NaN == NaN, -0.0 != 0.0"""
     if type(a) is not type(b):
@@ -363,7 +396,7 @@ def exc_kind(e):
     return "Other:" + type(e).__name__
 
 
-def run_sequence(ctx, seq, lines_cases, lines_meta, sender_cases, sender_meta):
+def run_sequence(ctx, seq, lines_cases, lines_meta, sender_cases, sender_meta, json_cases=None, json_meta=None):
     from syne_tune.report import Reporter
     from syne_tune.util import dump_json_with_numpy
     buf = io.StringIO()
@@ -439,6 +472,18 @@ def run_sequence(ctx, seq, lines_cases, lines_meta, sender_cases, sender_meta):
                 return
             dump = "fun _ => Some (%s, %d)" % (tx(payload), sys.getsizeof(payload))
             obs_terms.append("Emitted %s" % natlit(it))
+            if want == "deliver" and len(payload) <= 1500 and json_cases is not None:
+                try:
+                    toks = json.loads(payload, parse_float=str, parse_int=str, parse_constant=str)
+                    user = {k: expect(sp) for k, sp in items}
+                    json_cases.append("(%s, (%s, %s, %s), %s, %s, %s, %d)" % (
+                        blit("st_worker_time" in toks), tx(toks["st_worker_timestamp"]), tx(toks.get("st_worker_time", "0")),
+                        ("(Some %s)" % tx(toks["st_worker_cost"])) if "st_worker_cost" in toks else "(@None (list Z))",
+                        lst(["(%s, %s)" % (tx(k), jterm(v)) for k, v in user.items()]) if user else "(@nil (list Z * jvalue))",
+                        natlit(it), tx(payload), sys.getsizeof(payload)))
+                    json_meta.append(dict(kind="seq", seq=seq, payload=payload))
+                except Exception:  # noqa
+                    pass
             if sys.getsizeof(payload) > 8000:
                 nontrivial = True
         else:
@@ -1430,8 +1475,9 @@ def run(ctx, replay=None):
         seqs += [gen_sequence(rng) for _ in range(ctx.n(500, 8000))]
         forged += [gen_forged(rng) for _ in range(ctx.n(400, 6000))]
     lines_cases, lines_meta, sender_cases, sender_meta = [], [], [], []
+    json_cases, json_meta = [], []
     for seq in seqs:
-        run_sequence(ctx, seq, lines_cases, lines_meta, sender_cases, sender_meta)
+        run_sequence(ctx, seq, lines_cases, lines_meta, sender_cases, sender_meta, json_cases, json_meta)
     for text in forged:
         lines = read_like_local_backend(text)
         got, groups, _ = retrieve_with_groups(lines, passthrough=False)
@@ -1455,6 +1501,11 @@ def run(ctx, replay=None):
     for i in ctx.coq_bad_cases("lines", IMPORTS, PRELUDE, "chk_lines", lines_cases, shard=150):
         ctx.violation("correspondence", "model readlines/retrieve_model differs from readlines()+re.findall of the real retrieve",
                       case=lines_meta[i], failing_input=False, broken="correspondence chk_lines (model/Report.v retrieve_model)")
+    ctx.h("json_layer_cases", "payloads", len(json_cases))
+    for i in ctx.coq_bad_cases("json", IMPORTS, PRELUDE, "chk_json", json_cases, shard=150):
+        ctx.violation("correspondence", "model dumps / loads / report_dict / ascii_str_sizeof differs from json.dumps, json.loads, "
+                      "the Reporter's fields or sys.getsizeof on payload %r" % json_meta[i]["payload"][:300],
+                      case=json_meta[i], failing_input=False, broken="correspondence chk_json (model/Report.v dumps, loads, report_dict)")
     for i in ctx.coq_bad_cases("sender", IMPORTS, PRELUDE, "chk_sender", sender_cases, shard=150):
         ctx.violation("correspondence", "model Reporter (outcomes, counter, printed text) differs from the real Reporter",
                       case=sender_meta[i], failing_input=False, broken="correspondence chk_sender (model/Report.v report_call)")
